@@ -50,6 +50,9 @@ def make_var(rng, ids, raw, dims, p_nan, p_inf, scale=P.SCALE, finite=False, sma
     for d in dims:
         n *= raw["dims"][d]
     cells = []
+    if small:
+        # error values: distinct within the variable, below 1024 / 4096 = 1/4
+        return {"dims": list(dims), "scale": scale, "cells": rng.sample(range(1, 1024), n)}
     for _ in range(n):
         r = rng.random()
         if not finite and r < p_nan:
@@ -159,7 +162,7 @@ def gen_line_or_scatter(rng, kind, tier):
     # options
     if case["c"] is None:
         r = rng.random()
-        if r < 0.4 and (has_z or multi or rng.random() < 0.1):
+        if r < 0.4 and (has_z or multi or rng.random() < 0.5):
             opts["colors"] = True
         elif r < 0.6:
             opts["colors"] = rng.choice(COLOR_LISTS)
@@ -278,7 +281,7 @@ def gen_histogram(rng, tier, auto=False):
     if rng.random() < 0.15:
         opts["stacked"] = True
     r = rng.random()
-    if r < 0.3 and (has_z or multi or rng.random() < 0.1):
+    if r < 0.3 and (has_z or multi or rng.random() < 0.5):
         opts["colors"] = True
         opts["colormap"] = rng.choice(["viridis", "plasma"])
     elif r < 0.45:
@@ -349,9 +352,38 @@ def grid_dims_gt1(case):
     return any(case["ds"]["dims"][case[k]] > 1 for k in ("row", "col") if case.get(k))
 
 
-def expected_raise(case):
-    """Option combinations for which the installed tree raises instead of drawing (each is a reported
-    finding with a stable key; the trigger is stated on the case, not on the error text)."""
+def colorbar_implies_colors(case):
+    """colorbar=True on a single plot over a z coordinate with default colours: the series are coloured by z
+    (otherwise the colour bar would describe nothing that is drawn)"""
+    o = case["opts"]
+    return (case["kind"] != "heatmap" and o.get("colorbar") is True and o.get("colors") is None
+            and case.get("c") is None and case.get("z") is not None
+            and not (case.get("row") or case.get("col")))
+
+
+def colorbar_without_scale(case):
+    """colorbar=True although nothing is colour-mapped: no z and no c, or (single plot) an explicit colour list"""
+    o = case["opts"]
+    if case["kind"] == "heatmap" or o.get("colorbar") is not True:
+        return False
+    grid = bool(case.get("row") or case.get("col"))
+    noz = case.get("z") is None and case.get("c") is None
+    return noz or (not grid and isinstance(o.get("colors"), list))
+
+
+RAISE_SIGNATURE = {
+    "multi-variable-y-with-row-or-col-raises": "non-singlet",
+    "colors-true-without-z-raises": "_color_norm",
+    "colorbar-true-without-colour-scale-raises": "mappable",
+    "legend-true-on-grid-without-labels-raises": "_legend_handles",
+}
+
+
+def raise_class(case, error=""):
+    """Stable key under which an exception of the plotting call is reported, by the option combination of the
+    case.  These are the combinations that raised before the corresponding fix: commits; on a repaired tree
+    none of them raises any more (see colorbar_without_scale for the one request that is declined on purpose).
+    When a case combines several of them, the attribute / phrase named in the error picks the one that fired."""
     o = case["opts"]
     kind = case["kind"]
     if kind == "heatmap":
@@ -360,18 +392,20 @@ def expected_raise(case):
     multi = isinstance(names, list)
     grid = bool(case.get("row") or case.get("col"))
     noz = case.get("z") is None and case.get("c") is None
+    cands = []
     if kind == "lineplot" and multi and grid:
-        # check_excess_dims runs on the undivided dataset (only in line mode): a row / col dimension of
-        # size > 1 that is not a dimension of the x variable is "in excess"
+        # check_excess_dims ran on the undivided dataset (only in line mode): a row / col dimension of
+        # size > 1 that is not a dimension of the x variable was "in excess"
         xd = P.var_dims(case["ds"], case["x"])
         if any(case["ds"]["dims"][case[k]] > 1 and case[k] not in xd for k in ("row", "col") if case.get(k)):
-            return "multi-variable-y-with-row-or-col-raises"
+            cands.append("multi-variable-y-with-row-or-col-raises")
     if o.get("colors") is True and noz and not multi:
-        return "colors-true-without-z-raises"
-    if o.get("colorbar") is True and noz:
-        return "colorbar-true-without-colour-scale-raises"
-    if o.get("colorbar") is True and not grid and not (o.get("colors") is True or case.get("c")):
-        return "colorbar-true-without-colour-scale-raises"
+        cands.append("colors-true-without-z-raises")
+    if o.get("colorbar") is True and (noz or (not grid and not (o.get("colors") is True or case.get("c")))):
+        cands.append("colorbar-true-without-colour-scale-raises")
     if o.get("legend") is True and grid and case.get("z") is None and not multi and kind == "lineplot":
-        return "legend-true-on-grid-without-labels-raises"
-    return None
+        cands.append("legend-true-on-grid-without-labels-raises")
+    for k in cands:
+        if RAISE_SIGNATURE[k] in error:
+            return k
+    return cands[0] if cands else None
